@@ -20,7 +20,7 @@ Lemma trig_put_q s : QInv s -> QInv (fst (trig_put s)).
 Proof.
   intros (A & B & C & D). unfold trig_put. destruct (putq s) as [|r q] eqn:E; simpl.
   { unfold QInv. rewrite E. auto. }
-  destruct (admit_put s); simpl.
+  destruct (allow_put s); simpl.
   - unfold QInv; simpl. repeat split; auto. eapply sorted_tail; eauto. eapply below_tail; eauto.
   - unfold QInv. rewrite E. auto.
 Qed.
@@ -29,7 +29,7 @@ Lemma trig_get1_q s : QInv s -> QInv (fst (trig_get1 s)).
 Proof.
   intros (A & B & C & D). unfold trig_get1. destruct (getq s) as [|r q] eqn:EQ; simpl.
   { unfold QInv. rewrite EQ. auto. }
-  destruct (admit_get s); simpl.
+  destruct (allow_get s); simpl.
   - destruct (split_first _ _) as [[[a x] b]|]; simpl.
     + unfold QInv; simpl. repeat split; auto. eapply sorted_tail; eauto. eapply below_tail; eauto.
     + unfold QInv. rewrite EQ. auto.
@@ -94,7 +94,7 @@ Theorem trig_put_serves_min s s' t :
               forall y, In y q -> rlt r y.
 Proof.
   intros (A & _) E. unfold trig_put in E. destruct (putq s) as [|r q] eqn:EQ; [inversion E|].
-  destruct (admit_put s); inversion E; subst. exists r, q. simpl. repeat split; auto.
+  destruct (allow_put s); inversion E; subst. exists r, q. simpl. repeat split; auto.
   intros y Hy. eapply sorted_head_min; eauto.
 Qed.
 
@@ -104,32 +104,32 @@ Theorem trig_get_serves_min s s' t :
               forall y, In y q -> rlt r y.
 Proof.
   intros (_ & B & _) E. unfold trig_get1 in E. destruct (getq s) as [|r q] eqn:EQ; [inversion E|].
-  destruct (admit_get s); [|inversion E].
+  destruct (allow_get s); [|inversion E].
   destruct (split_first _ _) as [[[a x] b]|]; inversion E; subst. exists r, q. simpl. repeat split; auto.
   intros y Hy. eapply sorted_head_min; eauto.
 Qed.
 
 Lemma trig_put_at_most_one s : length (snd (trig_put s)) <= 1.
-Proof. unfold trig_put. destruct (putq s); simpl; auto. destruct (admit_put s); simpl; auto. Qed.
+Proof. unfold trig_put. destruct (putq s); simpl; auto. destruct (allow_put s); simpl; auto. Qed.
 Lemma trig_get_at_most_one s : length (snd (trig_get1 s)) <= 1.
 Proof.
-  unfold trig_get1. destruct (getq s); simpl; auto. destruct (admit_get s); simpl; auto.
+  unfold trig_get1. destruct (getq s); simpl; auto. destruct (allow_get s); simpl; auto.
   destruct (split_first _ _) as [[[a x] b]|]; simpl; auto.
 Qed.
 
 (* ------------------------------------------------------------------ C04 (stores without filters) *)
 
 Definition NoLost (s : store) : Prop :=
-  (putq s <> [] -> admit_put s = false) /\ (getq s <> [] -> admit_get s = false).
+  (putq s <> [] -> allow_put s = false) /\ (getq s <> [] -> allow_get s = false).
 
 Lemma trig_put_nolost s :
   (forall r1 r2 q, putq s = r1 :: r2 :: q -> cap s <= length (putres s) + length (items s) + 1) ->
-  putq (fst (trig_put s)) <> [] -> admit_put (fst (trig_put s)) = false.
+  putq (fst (trig_put s)) <> [] -> allow_put (fst (trig_put s)) = false.
 Proof.
   intros H. unfold trig_put. destruct (putq s) as [|r q] eqn:EQ; simpl; [congruence|].
-  destruct (admit_put s) eqn:EA; simpl.
+  destruct (allow_put s) eqn:EA; simpl.
   - intros Hq. destruct q as [|r2 q]; [congruence|]. specialize (H _ _ _ eq_refl).
-    unfold admit_put; simpl. rewrite app_length; simpl. apply Nat.ltb_ge. lia.
+    unfold allow_put; simpl. rewrite app_length; simpl. apply Nat.ltb_ge. lia.
   - rewrite EQ. auto.
 Qed.
 
@@ -141,7 +141,7 @@ Lemma trig_get_nofilter s :
   s_kind s <> KFilter -> CapInv s ->
   trig_get s = match getq s with
                | [] => (s, [])
-               | r :: q => if admit_get s
+               | r :: q => if allow_get s
                            then (set_getres (set_getq s q) (getres s ++ [r]), [r_tok r])
                            else (s, [])
                end.
@@ -149,7 +149,7 @@ Proof.
   intros NF (_ & HL).
   assert (trig_get s = trig_get1 s) as -> by (unfold trig_get; destruct (s_kind s); congruence).
   unfold trig_get1. destruct (getq s) as [|r q]; auto.
-  unfold admit_get. destruct (Nat.ltb_spec (length (getres s)) (length (items s))); auto.
+  unfold allow_get. destruct (Nat.ltb_spec (length (getres s)) (length (items s))); auto.
   destruct (skipn (length (getres s)) (items s)) as [|x l] eqn:ES.
   { exfalso. pose proof (skipn_length (length (getres s)) (items s)) as K. rewrite ES in K. simpl in K. lia. }
   simpl. rewrite (nofilter_match s r NF x). simpl.
@@ -160,26 +160,26 @@ Qed.
 Lemma trig_get_nolost s :
   s_kind s <> KFilter -> CapInv s ->
   (forall r1 r2 q, getq s = r1 :: r2 :: q -> length (items s) <= length (getres s) + 1) ->
-  getq (fst (trig_get s)) <> [] -> admit_get (fst (trig_get s)) = false.
+  getq (fst (trig_get s)) <> [] -> allow_get (fst (trig_get s)) = false.
 Proof.
   intros NF HC H. rewrite trig_get_nofilter by auto.
   destruct (getq s) as [|r q] eqn:EQ; simpl; [congruence|].
-  destruct (admit_get s) eqn:EA; simpl.
+  destruct (allow_get s) eqn:EA; simpl.
   - intros Hq. destruct q as [|r2 q]; [congruence|]. specialize (H _ _ _ eq_refl).
-    unfold admit_get; simpl. rewrite app_length; simpl. apply Nat.ltb_ge. lia.
+    unfold allow_get; simpl. rewrite app_length; simpl. apply Nat.ltb_ge. lia.
   - rewrite EQ. auto.
 Qed.
 
-Lemma admit_put_false s : CapInv s -> admit_put s = false -> length (putres s) + length (items s) = cap s.
-Proof. intros (H1 & _) E. unfold admit_put in E. apply Nat.ltb_ge in E. lia. Qed.
-Lemma admit_get_false s : CapInv s -> admit_get s = false -> length (getres s) = length (items s).
-Proof. intros (_ & H2) E. unfold admit_get in E. apply Nat.ltb_ge in E. lia. Qed.
+Lemma allow_put_false s : CapInv s -> allow_put s = false -> length (putres s) + length (items s) = cap s.
+Proof. intros (H1 & _) E. unfold allow_put in E. apply Nat.ltb_ge in E. lia. Qed.
+Lemma allow_get_false s : CapInv s -> allow_get s = false -> length (getres s) = length (items s).
+Proof. intros (_ & H2) E. unfold allow_get in E. apply Nat.ltb_ge in E. lia. Qed.
 
-Lemma trig_put_getpart s : getq (fst (trig_put s)) = getq s /\ admit_get (fst (trig_put s)) = admit_get s.
-Proof. unfold admit_get. destruct (trig_put_fields s) as (_ & -> & -> & -> & _). auto. Qed.
-Lemma trig_get_putpart s : putq (fst (trig_get s)) = putq s /\ admit_put (fst (trig_get s)) = admit_put s.
+Lemma trig_put_getpart s : getq (fst (trig_put s)) = getq s /\ allow_get (fst (trig_put s)) = allow_get s.
+Proof. unfold allow_get. destruct (trig_put_fields s) as (_ & -> & -> & -> & _). auto. Qed.
+Lemma trig_get_putpart s : putq (fst (trig_get s)) = putq s /\ allow_put (fst (trig_get s)) = allow_put s.
 Proof.
-  unfold admit_put. pose proof (trig_get_items_len s) as L.
+  unfold allow_put. pose proof (trig_get_items_len s) as L.
   destruct (trig_get_fields s) as (-> & -> & -> & _). rewrite L. auto.
 Qed.
 
@@ -193,13 +193,13 @@ Proof. apply trig_get_fields. Qed.
 Lemma trig_put_kind s : s_kind (fst (trig_put s)) = s_kind s.
 Proof. apply trig_put_fields. Qed.
 
-Lemma trig_get1_nogrant s : admit_get s = false \/ getq s = [] -> trig_get1 s = (s, []).
+Lemma trig_get1_nogrant s : allow_get s = false \/ getq s = [] -> trig_get1 s = (s, []).
 Proof.
   unfold trig_get1. intros HC. destruct (getq s) as [|r q]; auto.
   destruct HC as [HC|HC]; [|discriminate]. rewrite HC. auto.
 Qed.
 
-Lemma trig_get_nogrant s : admit_get s = false \/ getq s = [] -> fst (trig_get s) = s.
+Lemma trig_get_nogrant s : allow_get s = false \/ getq s = [] -> fst (trig_get s) = s.
 Proof.
   intros HC. unfold trig_get. destruct (s_kind s); try (rewrite trig_get1_nogrant; auto).
   destruct (length (getq s)); simpl; auto. rewrite trig_get1_nogrant; auto.
@@ -212,14 +212,14 @@ Proof.
   - (* RPut *) trg. simpl. split.
     + apply trig_put_nolost. simpl. intros r1 r2 q EQ.
       destruct (putq s) as [|x q0] eqn:EP; [simpl in EQ; discriminate|].
-      assert (length (putres s) + length (items s) = cap s) by (apply admit_put_false; auto; apply NP; congruence).
+      assert (length (putres s) + length (items s) = cap s) by (apply allow_put_false; auto; apply NP; congruence).
       lia.
     + match goal with |- context [trig_put ?z] => destruct (trig_put_getpart z) as (-> & ->) end. exact NG.
   - (* RGet *) trg. simpl. split.
     + match goal with |- context [trig_get ?z] => destruct (trig_get_putpart z) as (-> & ->) end. exact NP.
     + apply trig_get_nolost; auto. simpl. intros r1 r2 q EQ.
       destruct (getq s) as [|x q0] eqn:EP; [simpl in EQ; discriminate|].
-      assert (length (getres s) = length (items s)) by (apply admit_get_false; auto; apply NG; congruence).
+      assert (length (getres s) = length (items s)) by (apply allow_get_false; auto; apply NG; congruence).
       lia.
   - (* Put *)
     destruct (existsb (owns p t) (putres s)) eqn:EO; simpl; [|split; auto].
@@ -230,10 +230,10 @@ Proof.
     assert (CapInv s1) as HC1.
     { subst s1. unfold CapInv; simpl. rewrite app_length; simpl. lia. }
     split.
-    + destruct (trig_get_putpart s1) as (-> & ->). subst s1. unfold admit_put in *; simpl.
+    + destruct (trig_get_putpart s1) as (-> & ->). subst s1. unfold allow_put in *; simpl.
       rewrite app_length; simpl. intros HQ. specialize (NP HQ). apply Nat.ltb_ge in NP. apply Nat.ltb_ge. lia.
     + apply trig_get_nolost; auto. subst s1; simpl. intros r1 r2 q EQ.
-      assert (length (getres s) = length (items s)) by (apply admit_get_false; auto; apply NG; congruence).
+      assert (length (getres s) = length (items s)) by (apply allow_get_false; auto; apply NG; congruence).
       rewrite app_length; simpl. lia.
   - (* Get *)
     destruct (existsb (owns p t) (getres s)) eqn:EO; simpl; [|split; auto].
@@ -243,23 +243,23 @@ Proof.
     pose proof (remove_nth_len_lt i (items s) LN) as L1. pose proof (remove_nth_len_lt i (getres s) LI) as L2.
     trg. simpl. split.
     + apply trig_put_nolost. simpl. intros r1 r2 q EQ.
-      assert (length (putres s) + length (items s) = cap s) by (apply admit_put_false; auto; apply NP; congruence).
+      assert (length (putres s) + length (items s) = cap s) by (apply allow_put_false; auto; apply NP; congruence).
       lia.
     + match goal with |- context [trig_put ?z] => destruct (trig_put_getpart z) as (-> & ->) end.
-      simpl. intros HQ. specialize (NG HQ). unfold admit_get in *; simpl.
+      simpl. intros HQ. specialize (NG HQ). unfold allow_get in *; simpl.
       apply Nat.ltb_ge in NG. apply Nat.ltb_ge. lia.
   - (* CPut *)
     destruct (existsb (tokb t) (putq s)) eqn:EQ.
     + trg. simpl. split.
       * apply trig_put_nolost. simpl. intros r1 r2 q EQ2.
         assert (putq s <> []) as NE by (intros Z; rewrite Z in EQ; discriminate).
-        assert (length (putres s) + length (items s) = cap s) by (apply admit_put_false; auto). lia.
+        assert (length (putres s) + length (items s) = cap s) by (apply allow_put_false; auto). lia.
       * match goal with |- context [trig_put ?z] => destruct (trig_put_getpart z) as (-> & ->) end. exact NG.
     + destruct (existsb (tokb t) (putres s)) eqn:ER; simpl; [|split; auto].
       pose proof (remove_first_len_ex _ _ ER) as LP.
       trg. simpl. split.
       * apply trig_put_nolost. simpl. intros r1 r2 q EQ2.
-        assert (length (putres s) + length (items s) = cap s) by (apply admit_put_false; auto; apply NP; congruence).
+        assert (length (putres s) + length (items s) = cap s) by (apply allow_put_false; auto; apply NP; congruence).
         lia.
       * match goal with |- context [trig_put ?z] => destruct (trig_put_getpart z) as (-> & ->) end. exact NG.
   - (* CGet *)
@@ -268,7 +268,7 @@ Proof.
       * match goal with |- context [trig_get ?z] => destruct (trig_get_putpart z) as (-> & ->) end. exact NP.
       * apply trig_get_nolost; auto. simpl. intros r1 r2 q EQ2.
         assert (getq s <> []) as NE by (intros Z; rewrite Z in EQ; discriminate).
-        assert (length (getres s) = length (items s)) by (apply admit_get_false; auto). lia.
+        assert (length (getres s) = length (items s)) by (apply allow_get_false; auto). lia.
     + destruct (index_where (tokb t) (getres s)) as [i|] eqn:EI; simpl; [|split; auto].
       destruct (nth_error (items s) i) as [it|] eqn:EN; simpl; [|split; auto].
       pose proof (index_where_lt _ _ _ EI) as LI. pose proof (nth_error_lt _ _ _ EN) as LN.
@@ -278,10 +278,10 @@ Proof.
       assert (CapInv s1) as HC1.
       { subst s1. unfold CapInv; simpl. rewrite insert_at_len. lia. }
       split.
-      * destruct (trig_get_putpart s1) as (-> & ->). subst s1. unfold admit_put in *; simpl.
+      * destruct (trig_get_putpart s1) as (-> & ->). subst s1. unfold allow_put in *; simpl.
         rewrite insert_at_len. intros HQ. specialize (NP HQ). apply Nat.ltb_ge in NP. apply Nat.ltb_ge. lia.
       * apply trig_get_nolost; auto. subst s1; simpl. intros r1 r2 q EQ2.
-        assert (length (getres s) = length (items s)) by (apply admit_get_false; auto; apply NG; congruence).
+        assert (length (getres s) = length (items s)) by (apply allow_get_false; auto; apply NG; congruence).
         rewrite insert_at_len. lia.
   - (* Retrig *)
     trg. simpl. split.
@@ -336,7 +336,7 @@ Theorem grant_discipline s s' t :
     getres s' = getres s ++ [r].
 Proof.
   unfold trig_get1. destruct (getq s) as [|r q]; [intros [= <-]|].
-  destruct (admit_get s); [|intros [= <-]].
+  destruct (allow_get s); [|intros [= <-]].
   destruct (split_first _ _) as [[[a x] b]|] eqn:ES; [|intros [= <-]].
   intros [= <- <-]. apply split_first_spec in ES as (E1 & E2 & E3).
   exists r, q, a, x, b. simpl. repeat split; auto.
@@ -453,13 +453,13 @@ Definition NoLostF (s : store) : Prop := snd (trig_get1 s) = [].
 
 Lemma trig_get1_nil s : snd (trig_get1 s) = [] -> fst (trig_get1 s) = s.
 Proof.
-  unfold trig_get1. destruct (getq s); auto. destruct (admit_get s); auto.
+  unfold trig_get1. destruct (getq s); auto. destruct (allow_get s); auto.
   destruct (split_first _ _) as [[[a x] b]|]; simpl; auto. discriminate.
 Qed.
 
 Lemma trig_get1_pops s : snd (trig_get1 s) <> [] -> S (length (getq (fst (trig_get1 s)))) = length (getq s).
 Proof.
-  unfold trig_get1. destruct (getq s); simpl; [congruence|]. destruct (admit_get s); simpl; [|congruence].
+  unfold trig_get1. destruct (getq s); simpl; [congruence|]. destruct (allow_get s); simpl; [|congruence].
   destruct (split_first _ _) as [[[a x] b]|]; simpl; auto. congruence.
 Qed.
 
@@ -483,7 +483,7 @@ Lemma trig_get1_view s s' :
   getq s' = getq s -> getres s' = getres s -> items s' = items s -> now s' = now s ->
   tdelay s' = tdelay s -> s_kind s' = s_kind s -> snd (trig_get1 s') = snd (trig_get1 s).
 Proof.
-  intros A B C D E F. unfold trig_get1, admit_get, eff_flt. rewrite A, B, C, D, E, F.
+  intros A B C D E F. unfold trig_get1, allow_get, eff_flt. rewrite A, B, C, D, E, F.
   destruct (getq s); auto. destruct (_ <? _); auto. destruct (split_first _ _) as [[[a x] b]|]; auto.
 Qed.
 
@@ -518,7 +518,7 @@ Proof.
     pose proof (remove_nth_len_lt i (items s) (nth_error_lt _ _ _ EN)) as L1.
     trg. simpl. unfold NoLostF in *.
     match goal with |- context [trig_put ?z] => destruct (trig_put_fields z) as (_ & F1 & F2 & F3 & F4 & F5 & F6 & F7) end.
-    simpl in *. rewrite <- NL. unfold trig_get1, admit_get, eff_flt. rewrite F1, F2, F3, F5, F6, F7. simpl.
+    simpl in *. rewrite <- NL. unfold trig_get1, allow_get, eff_flt. rewrite F1, F2, F3, F5, F6, F7. simpl.
     destruct (getq s) as [|r q]; auto.
     assert (length (remove_nth i (getres s)) = length (getres s) - 1) as -> by lia.
     rewrite (skipn_remove_nth (items s) i (length (getres s))) by lia.
